@@ -1,3 +1,6 @@
 import Vet.Props.Search
+import Vet.Props.Build
 #print axioms Vet.search_sound
 #print axioms Vet.search_fuel_enough
+#print axioms Vet.build_sound
+#print axioms Vet.build_mirror
